@@ -33,6 +33,8 @@ def configs():
     c = []
     c.append(('default-noctx', D(), BASE + ['[', ']', '~', '-', '&', '*', '\\(', '\\[', '\\)', '\\]', '\\begin{e}', '\\end{e}', '\\m', 'b']))
     c.append(('ctx', D(ctx=SPECIALS), BASE + ['~', '-', '`', "'", '&']))
+    # a database that registers a specials specification with EMPTY characters (a placeholder): it never matches
+    c.append(('ctx-emptyspecials', D(ctx=['', '~', '--']), ['a', '~', '-', ' ', '\n', '\\', '$', '%']))
     c.append(('ctx-par', D(ctx=SPECIALS + ['\n\n']), ['a', ' ', '\n', '\\', '%', '-', '\t']))
     c.append(('ctx-par-nodnp', D(ctx=SPECIALS + ['\n\n'], enable_double_newline_paragraphs=False), ['a', ' ', '\n', '\\', '%']))
     c.append(('ctx-nospecials', D(ctx=SPECIALS, enable_specials=False), ['a', '~', '-', '\n', ' ']))
@@ -216,6 +218,8 @@ def oracle(c):
             except Exception as e2:
                 return ('peek_token_or_none-raised-%s' % type(e2).__name__, {'pos': p0})
             return ('peek_token_or_none-hides-token-error', {'pos': p0, 'returned': None if r is None else T.dump_token(r)})
+        except Exception as e:            # anything but a token error / end of stream escaping from a read
+            return ('token-read-raised-%s' % type(e).__name__, {'pos': p0, 'message': str(e)[:200]})
         if tr.cur_pos() != p0:
             return ('peek-moves', {'pos': p0, 'after': tr.cur_pos(), 'token': T.dump_token(pk)})
         # the None-returning variant sees the same token (None only at the end of the stream)
